@@ -47,7 +47,9 @@ def gen(rng, n):
             else:
                 pathv = 'r/' + name
                 full = vol + '/r/' + name
-            nodes += scen.entry(td, name, pathv, rng.choice(['2001-01-01T00:00:00', '2024-01-01T00:00:00']), pk,
+            # (for trash-empty also an entry without DeletionDate: whatever the command makes of it, a killed run that is run again ends
+            # where the uninterrupted one ends)
+            nodes += scen.entry(td, name, pathv, rng.choice(['2001-01-01T00:00:00', '2024-01-01T00:00:00'] + ([None] if cmd == 'empty' else [])), pk,
                                 data=(rng.choice([None, 'no/such', '../gone', '/canary/dir', '/canary/rodir']) if pk == 'l' else None))
             ents.append({'td': td, 'name': name, 'full': full, 'payload': pk})
         nodes += scen.canary()
@@ -65,7 +67,7 @@ def gen(rng, n):
         elif cmd == 'empty':
             if rng.random() < 0.5:
                 step['argv'] = ['365']
-                step['env'] = {'TRASH_DATE': '2024-06-01T00:00:00'}
+                step['env'] = {'TRASH_DATE': rng.choice(['2024-06-01T00:00:00', '2100-01-01T00:00:00'])}
         else:
             step['argv'] = [rng.choice(['*', '*0', '[ab]*'])]
         scns.append(lay.scenario([step], cwd='/', extra=nodes))
@@ -182,6 +184,30 @@ def run(run, thorough):
     total = 0
     for scn, meta in zip(scns, metas):
         sweep(run, scn, meta, max_points=None if thorough else 40)
+    # trash-rm with ONE system call of a removal refused (EACCES / EBUSY on the k-th unlink or rmdir, every k): the info file goes only after
+    # the whole payload has gone - a payload that could be removed only in part keeps its .trashinfo (trash-rm's order is strict)
+    rf, rfm = [], []
+    for scn, meta in zip(scns, metas):
+        if meta['cmd'] != 'rm' or not any(e['payload'] == 'd' for e in meta['ents']) or len(rf) > (60 if not thorough else 600):
+            continue
+        for k in range(1, 13):
+            s2 = copy.deepcopy(scn)
+            s2['steps'][0]['plan'] = {'sysfault': [k, run.rng.choice([13, 16])]}
+            rf.append(s2)
+            rfm.append((meta, k))
+    for s2, (meta, k), r in zip(rf, rfm, sandbox.execute_many(rf) if rf else []):
+        if r.get('harness_error') or not r.get('steps'):
+            continue
+        run.count('rm-refused-removal')
+        snap, before = r['steps'][0]['after'], r['before']
+        for td in engine.trash_dirs_in(before):
+            eb = engine.entries_of(before, td)
+            for name, e in engine.entries_of(snap, td).items():
+                if e['payload'] is not None and eb.get(name, {}).get('info') is not None and e['info'] is None:
+                    run.fail('oracle', 'the file system refused one removal inside a trashed directory: trash-rm removed the .trashinfo although part '
+                             'of the payload is still under files/', {'scenario': s2, 'rm_refused': True, 'trash_dir': td, 'name': esc(name), 'refused_call': k,
+                                                                     'exit': r['steps'][0]['exit']}, key='stranded-payload:refused', section='rm-refused-removal')
+        run.nontriv(('rm-refused', k, r['steps'][0]['exit']))
     # directed: the real clock moves while trash-empty DAYS runs, and an entry's date is exactly now - DAYS at the first reading: one
     # decision per entry - it is kept whole (or purged whole), at every crash point
     import random as _random_mod
@@ -225,6 +251,16 @@ def run(run, thorough):
 
 def replay(run, payload):
     case = payload.get('case') or {}
+    if case.get('rm_refused'):
+        r = sandbox.execute(case['scenario'])
+        if r.get('steps'):
+            snap, before = r['steps'][0]['after'], r['before']
+            for td in engine.trash_dirs_in(before):
+                eb = engine.entries_of(before, td)
+                for name, e in engine.entries_of(snap, td).items():
+                    if e['payload'] is not None and eb.get(name, {}).get('info') is not None and e['info'] is None:
+                        run.fail('oracle', 'trash-rm removed the .trashinfo although part of the payload is still under files/', case, key='stranded-payload:refused', section='replay')
+        return
     scn = case.get('scenario')
     if not scn:
         return
